@@ -11,6 +11,7 @@ from glotaran.parameter import Parameters
 from glotaran.parameter.parameter import OPTION_NAMES_DESERIALIZED
 from glotaran.utils.io import safe_dataframe_fillna
 from glotaran.utils.io import safe_dataframe_replace
+from glotaran.utils.io import text_column_dtypes
 
 
 @register_project_io(["xlsx", "ods"])
@@ -29,7 +30,10 @@ class ExcelProjectIo(ProjectIoInterface):
         -------
             :class:`Parameters`
         """
-        df = pd.read_excel(file_name, na_values=["None", "none"])
+        column_names = pd.read_excel(file_name, nrows=0).columns
+        df = pd.read_excel(
+            file_name, na_values=["None", "none"], dtype=text_column_dtypes(column_names)
+        )
         df.columns = [column.lower() for column in df.columns]
         df = df.rename(columns=OPTION_NAMES_DESERIALIZED)
         safe_dataframe_fillna(df, "minimum", -np.inf)
